@@ -12,6 +12,7 @@ Generic pieces of `pybtex/scanner.py` (class `Scanner`) as used by the `.bst` pa
   `eat_whitespace`                         `eatWs`
   `get_token` / `optional` / `required`    `getToken` / `optional` / `required`
   `PrematureEOF`, `TokenRequired`          `Err.prematureEOF`, `Err.tokenRequired`
+  `PybtexSyntaxError(msg, parser)`         `Err.syntaxError`
   `EOFError` (with `allow_eof=True`)       `Err.eof`
 
 Only `get_token`-style (anchored) matching is modelled; `skip_to` (un-anchored search) is not
@@ -81,6 +82,8 @@ inductive Err where
   | eof
   | prematureEOF (line : Nat)
   | tokenRequired (desc : Str) (line : Nat)
+  /-- `PybtexSyntaxError(message, parser)` raised directly (the base class, with its own message) -/
+  | syntaxError (msg : Str) (line : Nat)
   /-- not a Python outcome: returned by fuel-indexed parser loops when the fuel runs out; the
   adequacy theorems of each parser show that the entry points never return it -/
   | outOfFuel
